@@ -23,6 +23,8 @@ int ipc_calls_of(int proc);
 bool proc_dead(int proc);
 void set_killable(int proc, bool v);                 // random kills (cfg().p[ST_KILL]) may hit this process, at most one per run
 int eintr_fired();
+void faults_off(bool off);                          // nestable: no fault injection into simulated system calls while off
+struct RawScope { RawScope() { faults_off(true); } ~RawScope() { faults_off(false); } };
 
 // ---- IPC name space
 int last_sem_obj();                                 // object id returned by the current task's last successful sem_open (-1 none)
